@@ -301,54 +301,83 @@ func (ck *Check) acceptSetOf(rule string) *acceptSet {
 		}
 	}
 	acc := FTrue
-	for _, b := range fn.Blocks {
-		for _, in := range b.Instrs {
-			c, ok := in.(*ssa.Call)
-			if !ok || c.Common().Value != ssa.Value(clo) {
-				continue
-			}
-			as.calls++
-			pc, cond := ctx.PC(c), ctx.Formula(c.Common().Args[0])
-			// a check made once per row of a literal table: one instance per row
-			if l := innermostLoop(fn, c.Block()); l != nil {
-				rows, ok := ck.constTable(ctx, l)
+	failed := false
+	// the checks: calls of the recorder in the validator, and in helpers the validator hands the
+	// recorder to (their parameters bound to the arguments, their path conditions under the call's)
+	var collect func(ctx *Ctx, fn *ssa.Function, recorder ssa.Value, prefix *Formula, depth int)
+	collect = func(ctx *Ctx, fn *ssa.Function, recorder ssa.Value, prefix *Formula, depth int) {
+		for _, b := range fn.Blocks {
+			for _, in := range b.Instrs {
+				c, ok := in.(*ssa.Call)
 				if !ok {
-					ck.undecided(rule, fmt.Sprintf("validator/loop-check#%d", as.calls), ck.P.instrPos(c), funcID(fn), "a check made in a loop ranges over a literal table of the function (every row is then one check)", "loop over "+fmt.Sprint(l.Over))
-					return nil
+					continue
 				}
-				over := ctx.Term(l.Over)
-				for _, row := range rows {
-					inst := func(f *Formula) *Formula {
-						f = f.Subst(func(t *Term) *Formula {
-							if t.Kind == "cmp" && t.Name == "<" && len(t.Args) == 2 && t.Args[1].Kind == "len" && t.Args[1].Args[0].Key() == over.Key() && strings.Contains(t.Args[0].String(), "rangeindex") {
-								return FTrue
+				if c.Common().Value != recorder {
+					h := c.Common().StaticCallee()
+					if h == nil || !ck.P.inRepo(h) || h.Blocks == nil || depth >= 2 {
+						continue
+					}
+					for j, av := range c.Common().Args {
+						if av == recorder && j < len(h.Params) {
+							args := make([]*Term, len(c.Common().Args))
+							for i, x := range c.Common().Args {
+								args[i] = ctx.Term(x)
 							}
-							return nil
-						})
-						return rewriteFormula(f, func(t *Term) *Term {
-							if t.Kind == "field" && len(t.Args) == 1 && t.Args[0] == row && row.Kind == "struct" {
-								if v, ok := t.Obj.(*types.Var); ok {
-									if st, ok := row.Typ.Underlying().(*types.Struct); ok {
-										for i := 0; i < st.NumFields(); i++ {
-											if st.Field(i) == v && i < len(row.Args) && row.Args[i] != nil {
-												return row.Args[i]
+							ch := ctx.child(h, c, args)
+							ch.depth = 0
+							collect(ch, h, h.Params[j], And(prefix, ctx.PC(c)), depth+1)
+						}
+					}
+					continue
+				}
+				as.calls++
+				pc, cond := And(prefix, ctx.PC(c)), ctx.Formula(c.Common().Args[0])
+				// a check made once per row of a literal table: one instance per row
+				if l := innermostLoop(fn, c.Block()); l != nil {
+					rows, ok := ck.constTable(ctx, l)
+					if !ok {
+						ck.undecided(rule, fmt.Sprintf("validator/loop-check#%d", as.calls), ck.P.instrPos(c), funcID(fn), "a check made in a loop ranges over a literal table of the function (every row is then one check)", "loop over "+fmt.Sprint(l.Over))
+						failed = true
+						return
+					}
+					over := ctx.Term(l.Over)
+					for _, row := range rows {
+						inst := func(f *Formula) *Formula {
+							f = f.Subst(func(t *Term) *Formula {
+								if t.Kind == "cmp" && t.Name == "<" && len(t.Args) == 2 && t.Args[1].Kind == "len" && t.Args[1].Args[0].Key() == over.Key() && strings.Contains(t.Args[0].String(), "rangeindex") {
+									return FTrue
+								}
+								return nil
+							})
+							return rewriteFormula(f, func(t *Term) *Term {
+								if t.Kind == "field" && len(t.Args) == 1 && t.Args[0] == row && row.Kind == "struct" {
+									if v, ok := t.Obj.(*types.Var); ok {
+										if st, ok := row.Typ.Underlying().(*types.Struct); ok {
+											for i := 0; i < st.NumFields(); i++ {
+												if st.Field(i) == v && i < len(row.Args) && row.Args[i] != nil {
+													return row.Args[i]
+												}
 											}
 										}
 									}
 								}
-							}
-							if t.Kind == "elem" && t.Args[0].Key() == over.Key() {
-								return row
-							}
-							return nil
-						})
+								if t.Kind == "elem" && t.Args[0].Key() == over.Key() {
+									return row
+								}
+								return nil
+							})
+						}
+						acc = And(acc, Implies(inst(pc), inst(cond)))
 					}
-					acc = And(acc, Implies(inst(pc), inst(cond)))
+					continue
 				}
-				continue
+				acc = And(acc, Implies(pc, cond))
 			}
-			acc = And(acc, Implies(pc, cond))
 		}
+	}
+	collect(ctx, fn, clo, FTrue, 0)
+	if failed {
+		return nil
 	}
 	as.formula = as.strip(acc)
 	// the validated value
